@@ -1066,7 +1066,7 @@ func runC09(args []string) error {
 	// sizes, tick values, recursion depth, which half of the construct grid)
 	reps := 2
 	if thorough {
-		reps = 10
+		reps = 16
 	}
 	var tmpls []c09tmpl
 	for rep := 0; rep < reps; rep++ {
